@@ -645,6 +645,13 @@ def synthetic():
 
 _CD = 'TdlChannel.corrupt_data'
 MUTANTS = [
+    Mutant('flat-response-shortcut-forgets-the-delay', FA, 'TdlImpulseResponse.get_freq_response',
+           [('regex', r'(\n    freq_response = np\.fft\.fft)', r'\n    if self._tap_values_sparse.shape[0] == 1:\n        return np.repeat(self._tap_values_sparse.astype(complex), fft_size, axis=0)\1')],
+           r'C03\.j:TdlImpulseResponse\.get_freq_response:return-without-delays'),
+    Mutant('direction-branches-folded-with-a-lost-negation', FA, 'TdlChannel.__prepare_transmit_signal_shape',
+           [('regex', r'    if self\.switched_direction:\n        if num_rx_ant == 1 and signal\.ndim == 1:\n            signal = np\.reshape\(signal, \(1, signal\.size\)\)\n    elif num_tx_ant == 1 and signal\.ndim == 1:\n        signal = np\.reshape\(signal, \(1, signal\.size\)\)',
+             '    if (num_tx_ant == 1 or (num_rx_ant == 1 and not self.switched_direction)) and signal.ndim == 1:\n        signal = np.reshape(signal, (1, signal.size))')],
+           r'C03\.i:TdlChannel\.__prepare_transmit_signal_shape'),
     Mutant('tap-applied-to-squared-signal', FA, 'TdlChannel.corrupt_data',
            [('replace', 'output[d:d + num_symbols] += tap_values_sparse[i] * signal', 'output[d:d + num_symbols] += tap_values_sparse[i] * signal * signal')],
            r'C03\.o:TdlChannel\.corrupt_data:degree'),
